@@ -51,6 +51,16 @@ def selftest_block():
     for f in sorted(glob.glob(os.path.join(V, "selftest/neutral_agents/*.json"))):
         m = json.load(open(f))
         rows.append("| %s | %s | %s |" % (os.path.basename(f)[:-5], m.get("given_property"), (m.get("summary") or "")[:330].replace("|", "\\|").replace("\n", " ")))
+    rows.append("")
+    rows.append("Open false alarms (`selftest/neutral_agents_open/`, behaviour-preserving refactorings of the third neutral round on which a rule still fires; not part of the self-test):")
+    rows.append("")
+    rows.append("| refactoring | code of property | rules that fire | what was restructured |")
+    rows.append("|---|---|---|---|")
+    for f in sorted(glob.glob(os.path.join(V, "selftest/neutral_agents_open/*.json"))):
+        m = json.load(open(f))
+        fa = m.get("false_alarms")
+        keys = sorted({k.split(":")[0] for v in fa.values() for k in v}) if isinstance(fa, dict) else [str(fa)[:80]]
+        rows.append("| %s | %s | %s | %s |" % (os.path.basename(f)[:-5], m.get("given_property"), ", ".join(keys), (m.get("summary") or "")[:300].replace("|", "\\|").replace("\n", " ")))
     return "\n".join(rows)
 
 def main():
